@@ -151,6 +151,11 @@ def linearise(per, nthreads, cap, exit_code, fault_of_key):
     prod = [k for kind, k in per.get("Producer", []) if kind == "send"]
     workers = [list(per.get("Consumer %d" % i, [])) for i in range(nthreads)]
     main = [kind for kind, _ in per.get("main", [])]
+    failed_send = None
+    if "joined_producer" not in main and exit_code == 1 and prod:
+        # the producer panicked in send(): the hook logs a send BEFORE attempting it, so the last logged one failed
+        failed_send = prod.pop()
+    received = {k for evs in workers for kind, k in evs if kind == "recv"}
     item_no = {k: i for i, k in enumerate(prod)}
     labels = []
     q = []                      # content keys or None
@@ -229,6 +234,15 @@ def linearise(per, nthreads, cap, exit_code, fault_of_key):
                 labels.append("LJoined")
                 joined += 1
                 mi += 1
+                continue
+        # a receive whose log line was lost because the process exited while the worker was between the
+        # channel operation and the log write (only possible in a run that ended abnormally)
+        if exit_code != 0 and q and q[0] is not None and q[0] not in received:
+            cand = [w for w in range(nthreads) if wstate[w] == "idle" and wi[w] == len(workers[w])]
+            if cand:
+                q.pop(0)
+                labels.append("LRecv %d" % cand[0])
+                wstate[cand[0]] = "phantom"
                 continue
         # deaths, lowest priority: a worker whose log ends while busy on a faulty item died; a worker busy on a
         # sound item died only if the mutex was poisoned and main's join on it is what ended the process
